@@ -42,7 +42,7 @@ static void handler(int t){
 	unsigned long w0=WORD(); int o0=ONGOING(); unsigned long w0b=WORD();    /* bp: ONGOING() may register the thread; the word is 0 either way */
 	hdepth[t]++;
 	vs_call("lock",100+hdepth[t]); RL(); vs_ret("lock",0);
-	litmus(t, hdepth[t]&1, "handler");
+	litmus(t, !(hdepth[t]&1), "handler");   /* depth 1: pre first, then post - the order that exposes a grace period that did not wait for this section */
 	vs_call("unlock",100+hdepth[t]); RU(); vs_ret("unlock",0);
 	hdepth[t]--;
 	unsigned long w1=WORD(); int o1=ONGOING();
@@ -66,9 +66,9 @@ static void body(int t){
 		}
 	}
 #ifdef FLAVOR_BP
-	/* thread exit (the pthread key destructor in real life): outside the property (the thread is no longer a registered reader); signals are kept blocked here */
-	{ sigset_t all; sigfillset(&all); pthread_sigmask(SIG_BLOCK,&all,NULL); }
-	if(URCU_TLS(urcu_bp_reader)){ vs_call("unregister",0); struct rcu_reader *r=URCU_TLS(urcu_bp_reader); pthread_setspecific(urcu_bp_key,NULL); urcu_bp_unregister(r); URCU_TLS(urcu_bp_reader)=NULL; vs_ret("unregister",0); }
+	/* thread exit: what the pthread key destructor does (it runs again while the key has a value: a handler may have re-registered the thread).  Signals stay
+	   enabled, as in real life, except inside the critical section of init_lock in urcu_bp_exit() (see main) */
+	for(int it=0; it<4 && URCU_TLS(urcu_bp_reader); it++){ vs_call("unregister",0); struct rcu_reader *r=URCU_TLS(urcu_bp_reader); pthread_setspecific(urcu_bp_key,NULL); urcu_bp_unregister(r); vs_ret("unregister",0); }
 #else
 	vs_call("unregister",0); rcu_unregister_thread(); vs_ret("unregister",0);
 #endif
@@ -83,6 +83,11 @@ int main(int argc,char**argv){
 	rcu_init();
 	vs_region(&rcu_gp.ctr,8,"gp.ctr"); vs_region(&rcu_gp.futex,4,"gp.futex"); vs_region(&rcu_gp_lock,sizeof rcu_gp_lock,"gp_lock"); vs_region(&rcu_registry_lock,sizeof rcu_registry_lock,"reg_lock");
 	vs_region(&gp_waiters,sizeof gp_waiters,"waiters");
+#endif
+#ifdef FLAVOR_BP
+	/* a handler that uses RCU while the exiting thread holds init_lock in urcu_bp_exit() would re-register and self-deadlock on init_lock; the thread is no longer
+	   a registered reader there, so this is outside C19: such a signal is kept pending until the unlock */
+	vs_defer_signals_while_holding(&init_lock);
 #endif
 	vs_region(pre,sizeof pre,"pre"); vs_region(post,sizeof post,"post");
 	vs_set_signal_handler(handler);
